@@ -94,6 +94,34 @@ def f(x: fp.Real, y: fp.Real) -> fp.Real:
 ''', 'f', ['real', 'real'], ['history'])
 
 
+prog('captured_list_written', '''
+TABLE = [1.0, 2.0, 3.0]
+
+@fp.fpy
+def f(x: fp.Real, y: fp.Real) -> fp.Real:
+    TABLE[0] = TABLE[0] + x
+    return TABLE[0] * y
+''', 'f', ['real', 'real'], ['history', 'captured'])
+
+prog('captured_list_returned', '''
+TABLE = [1.0, 2.0, 3.0]
+
+@fp.fpy
+def f(x: fp.Real, y: fp.Real) -> tuple[fp.Real, list[fp.Real]]:
+    return (x + y, TABLE)
+''', 'f', ['real', 'real'], ['history', 'captured'])
+
+prog('captured_list_read_only', '''
+TABLE = [1.0, 2.0, 3.0]
+
+@fp.fpy
+def f(x: fp.Real, y: fp.Real) -> fp.Real:
+    t = [v * x for v in TABLE]
+    t[0] = t[0] + y
+    return t[0] + TABLE[0]
+''', 'f', ['real', 'real'], ['history', 'captured'])
+
+
 def _programs(tier):
     names = ('helper_mutates_list', 'loop_carried_tuple', 'sem_callee_contexts', 'copy_across_loop', 'const_under_contexts', 'sem_minmax_literal_zero', 'copy_in_branch', 'shortcircuit')
     base = [p for p in corpus.P if p['name'] in names or ('alias' in p['tags'] and 'no_ref' not in p['tags'] and 'list' in p['tags'])][:10]
@@ -163,7 +191,14 @@ def history(f, ns, args_builder, rt_call0):
             pass
     for C in (fp.MPFloatContext(3, fp.RM.RTP), fp.MPSFloatContext(3, -2, fp.RM.RTN)):
         try:
-            rt_call(f, args_builder(), C); labs.append('same function under %r' % (C,))
+            r = rt_call(f, args_builder(), C); labs.append('same function under %r' % (C,))
+            # what the caller does with a result is its own business: overwrite the elements of every list in it
+            for lst in containers(r, []):
+                for i in range(len(lst)):
+                    if not isinstance(lst[i], (list, tuple)):
+                        lst[i] = fp.Float.from_int(99)
+                        if 'caller overwrote the lists of an earlier result' not in labs:
+                            labs.append('caller overwrote the lists of an earlier result')
         except (Exception, tv.TransformTimeout):  # noqa
             pass
     for g in others[:2]:
